@@ -164,9 +164,10 @@ def expand(hist, scen, fam, aggs, salt, remote_restart, prof=""):
         made.add(did)
         parts = did.split(":")
         if parts[0] == "b":
-            out.append({"op": "make", "d": did, "fam": fam, "kind": "baseline", "name": parts[1], "ghi": solar, "entry": r.choice(["frame", "series"]) if fam in ("daily", "billing") else "frame"})
+            out.append({"op": "make", "d": did, "fam": fam, "kind": "baseline", "name": parts[1], "ghi": solar, "entry": r.choice(["frame", "series", "dtcol"]) if fam in ("daily", "billing") else r.choice(["frame", "dtcol"]) if fam == "hourly" else "frame"})
         elif parts[0] == "r":
-            out.append({"op": "make", "d": did, "fam": fam, "kind": "reporting", "name": parts[1], "obs": parts[2], "ghi": solar})
+            out.append({"op": "make", "d": did, "fam": fam, "kind": "reporting", "name": parts[1], "obs": parts[2], "ghi": solar,
+                        "entry": r.choice(["frame", "frame", "dtcol"]) if fam != "caltrack" else "frame"})
         else:
             other = "hourly" if fam in ("daily", "billing") else "daily"
             out.append({"op": "make", "d": did, "fam": other, "kind": "reporting", "name": parts[1], "obs": "orig"})
